@@ -28,7 +28,9 @@ SEMANTIC = [
     (re.compile(r"^constructed value may fail to meet its declared type invariant"), "type-inv"),
     (re.compile(r"^loop ensures not satisfied|^failed this postcondition"), "post"),
     (re.compile(r"^possible (index|slice) out of (bounds|range)"), "bounds"),
-    (re.compile(r"^precondition not met"), "bounds"),   # e.g. "precondition not met: index in bounds for this access"
+    (re.compile(r"^precondition not met"), "bounds"),
+    (re.compile(r"^unable to prove post-?condition of closure"), "post"),
+    (re.compile(r"^unable to prove pre-?condition of closure|^closure precondition"), "pre@callee"),   # e.g. "precondition not met: index in bounds for this access"
     (re.compile(r"^unwrap|^called .* on a `?None`? value"), "pre@callee"),
 ]
 RESOURCE = re.compile(r"rlimit|resource limit|timed out|timeout|out of memory", re.I)
